@@ -23,7 +23,7 @@ def make_book():
     wb = openpyxl.Workbook()
     wb.remove(wb.active)
     sheets = {}
-    for nm in ('Data', 'My Sheet', 'Skip'):
+    for nm in ('Data', 'My Sheet', 'Skip', 'Skip2'):
         sheets[nm] = wb.create_sheet(nm)
 
     def put(sheet, row, col, value, dtype, cvalue=None):
@@ -40,9 +40,15 @@ def make_book():
         'My Sheet!A1': put('My Sheet', 1, 1, '=Data!B1*2', 'f', 6), 'My Sheet!A2': put('My Sheet', 2, 1, '=SUM(rng)+total', 'f', 6),
         'My Sheet!B1': put('My Sheet', 1, 2, 5, 'n'), 'My Sheet!B2': put('My Sheet', 2, 2, '=B1+1', 'f', 6),
         'Skip!A1': put('Skip', 1, 1, 99, 'n'), 'Skip!B1': put('Skip', 1, 2, '=A1', 'f', 99),
+        # a stored but empty (formatted) input cell that is the target of a defined name
+        'Data!C1': put('Data', 1, 3, None, 'n'), 'Data!C2': put('Data', 2, 3, '=inp*2+A2', 'f', 0),
+        # a kept sheet whose name extends the name of an ignored sheet, with a defined name on it
+        'Skip2!A1': put('Skip2', 1, 1, 7, 'n'), 'Skip2!B1': put('Skip2', 1, 2, '=rate2*3', 'f', 21),
     }
     wb.defined_names['total'] = DefinedName('total', attr_text='Data!$B$1')
     wb.defined_names['rng'] = DefinedName('rng', attr_text='Data!$A$1:$A$2')
+    wb.defined_names['inp'] = DefinedName('inp', attr_text='Data!$C$1')
+    wb.defined_names['rate2'] = DefinedName('rate2', attr_text='Skip2!$A$1')
     return wb, cells
 
 
@@ -89,6 +95,19 @@ def build(tier, seed):
         if not ig_skip:
             if not (m.cells['Skip!A1'].value == 99 and num_is(ev.evaluate('Skip!B1'), 99)):
                 return False
+        # the empty stored cell exists, its name is bound, a value set through the name reaches it
+        if 'Data!C1' not in m.cells or 'inp' not in m.defined_names:
+            return False
+        if not num_is(ev.evaluate('Data!C2'), b):
+            return False
+        ev.set_cell_value('inp', k)
+        if not (m.cells['Data!C1'].value == k and num_is(ev.evaluate('Data!C2'), 2 * k + b)):
+            return False
+        # Skip2 is never ignored (only 'Skip' is): its cells and its defined name are there
+        CELLS['Skip2!A1']._value = cached
+        m2 = load(ignore)
+        if 'rate2' not in m2.defined_names or not num_is(Evaluator(m2).evaluate('Skip2!B1'), 3 * cached) or not num_is(Evaluator(m2).evaluate('rate2'), cached):
+            return False
         # a model built directly from the same contents evaluates alike
         d = {'Data!A1': a, 'Data!A2': b, 'Data!A3': t if not isinstance(t, str) or t == '' or True else t, 'Data!B1': '=A1+A2', 'Data!B2': '=SUM($A$1:$A$2)'}
         if isinstance(t, str) and (t == '' or t[0] == '='):
@@ -111,7 +130,7 @@ def build(tier, seed):
             obs.append(Ob(f'c11.adapter[workbook -> model, {label}]', mk(ig_s, ig_m),
                           pre=lambda a, b, t, cached, cached2, k: (not isinstance(t, str) or len(t) <= 2) and (not isinstance(cached2, str) or len(cached2) <= 2),
                           witness=[(1, 2, 'x', 3, 6, 5), (4, -4, True, 0, 'ab', 0), (0, 0, 7, 1, False, 1)], timeout=600, cost=60, family='c11.adapter',
-                          bounds='3 sheets (Data, "My Sheet", Skip), 11 stored cells: constants a, b, k (all ints), t over int / text(<=2) / bool, formulas with cached results (int; int/text/bool), '
+                          bounds='4 sheets (Data, "My Sheet", Skip, Skip2 - never ignored, its name extends Skip), 15 stored cells incl. an empty stored cell that is the target of a defined name: constants a, b, k (all ints), t over int / text(<=2) / bool, formulas with cached results (int; int/text/bool), '
                                  f'defined names for a cell and a range; {label}',
                           show=lambda *a: f'a={a[0]} b={a[1]} t={a[2]!r} cached={a[3]} cached2={a[4]!r} k={a[5]}'))
     return obs
